@@ -303,7 +303,7 @@ func (c *Ctx) structOf(t types.Type) *structInfo {
 	c.structs[key] = si
 	for i := 0; i < st.NumFields(); i++ {
 		f := st.Field(i)
-		si.fields = append(si.fields, structField{name: f.Name(), acc: fmt.Sprintf("%s_%s", name, sanitize(f.Name())), sort: c.sortOf(f.Type()), typ: f.Type()})
+		si.fields = append(si.fields, structField{name: f.Name(), acc: fmt.Sprintf("%s_f%d_%s", name, i, sanitize(f.Name())), sort: c.sortOf(f.Type()), typ: f.Type()})
 	}
 	var b strings.Builder
 	fmt.Fprintf(&b, "(declare-datatypes ((%s 0)) (((mk_%s", name, name)
